@@ -250,15 +250,15 @@ def run(ctx):
                 "unions, hinges with prescribed normal pairs around both thresholds, folded roofs, flat lattices) under "
                 "face deletion / ears / chords / splits / isolated vertices, random renumbering; every border vertex, "
                 "interior, isolated and out-of-range vertices as starting points; hard edges none/some/all; normals "
-                "computed or declared (exact quarter-integers); 2 detector option sets per mesh. Non-trivial = at least "
+                "computed or declared (exact quarter-integers); 3 detector option sets per mesh, the third on a mesh already used by a run. Non-trivial = at least "
                 "one border loop with an interior vertex or chord present, or an interior edge within 0.1 of a "
                 "threshold; distinct = by canonical JSON of the case")
     ctx.assumptions += [
         "the connectivity answers consumed by border.py/features.py are input tables; well-formedness (sorted "
         "neighbourhoods) is proved by C01 and evaluated here per case by Coq (wf_b, wf_f)",
         "face normals and corner angle sums are inputs of the detector model (computed by face_normals / corner_angles: C07)",
-        "one detector run per fresh mesh (re-running a detector on a mesh that already carries a 'corners' attribute is "
-        "outside the quantifier)"]
+        "a detector run on a mesh that already went through a run with other options must give the same answers as on "
+        "a fresh mesh (third option set of every case)"]
     ctx.regen(sys.modules[__name__])
     b = ctx.build_props(extra_targets=["theories/C15/Run.vo"])
     ctx.hygiene(["Lib", "C15"])
@@ -285,6 +285,7 @@ def run(ctx):
             ctx.count("only_border=%s" % d["only_border"])
             ctx.count("flag_corners=%s" % d["flag_corners"])
             ctx.count("corner_order=%d" % d["corner_order"])
+            ctx.count("mesh %s" % ("already used by a run" if d.get("prior") else "fresh"))
         nontrivial = info.get("loops", 0) >= 1 and len(c["faces"]) >= 2
         ctx.case_seen(strip(c), nontrivial=nontrivial,
                       sample={"faces": c["faces"][:6], "info": info} if len(c["faces"]) < 8 else None)
